@@ -237,7 +237,35 @@ func diffCase(c *check.Ctx, cs *core.Case, prop string) {
 	}
 	c.Rep.Outcomes["diff:"+r.symptom]++
 	cp := *cs
+	if strings.Contains(r.symptom, "k-overflow") && kOperandNeverPresent(cs, storeFor(cs)) {
+		// finding F05 is about operands that have no sample at any step of the window
+		cp.Note += " feat:k-operand-never-present"
+	}
 	c.Fail(check.Failure{Prop: prop, Kind: "enum", Symptom: r.symptom, Detail: r.detail, Case: &cp})
+}
+
+// kOperandNeverPresent: the operand of some topk/bottomk of the query has no sample at any
+// step of the window (evaluated by the reference engine).
+func kOperandNeverPresent(cs *core.Case, st *mstore.Store) bool {
+	expr, err := parser.ParseExpr(cs.Q)
+	if err != nil {
+		return false
+	}
+	never := false
+	parser.Inspect(expr, func(n parser.Node, _ []parser.Node) error {
+		ag, ok := n.(*parser.AggregateExpr)
+		if !ok || never || (ag.Op != parser.TOPK && ag.Op != parser.BOTTOMK) {
+			return nil
+		}
+		sub := *cs
+		sub.Q = ag.Expr.String()
+		r := core.RunRef(&sub, st)
+		if !r.Failed() && r.NPoints() == 0 {
+			never = true
+		}
+		return nil
+	})
+	return never
 }
 
 func init() {
